@@ -186,7 +186,8 @@ Qed.
 
 Lemma abort1_absent c tx0 tx : aget (pending c) tx = None -> aget (pending (fst (abort1 c tx0))) tx = None.
 Proof.
-  intros H. unfold abort1. destruct (aget (pending c) tx0); cbn [fst pending]; [|exact H].
+  intros H. unfold abort1. destruct (aget (pending c) tx0) as [t0|]; cbn [fst pending]; [|exact H].
+  destruct (phase t0 =? COMMITTING); cbn [fst pending]; [exact H|].
   rewrite aget_adel. destruct (tx0 =? tx); [reflexivity|exact H].
 Qed.
 Lemma abort_all_absent order : forall c tx, aget (pending c) tx = None ->
@@ -229,7 +230,8 @@ Proof.
     destruct (N.eqb_spec tx0 tx) as [->|Hne].
     + rewrite H. cbn [fst snd]. repeat split; [exact H|discriminate].
     + assert (K: aget (adel (pending c) tx0) tx = None) by (rewrite aget_adel; destruct (tx0 =? tx); [reflexivity|exact H]).
-      destruct (aget (pending c) tx0) as [t|]; cbn [fst snd pending];
+      destruct (aget (pending c) tx0) as [t|];
+      repeat match goal with |- context [if ?b then _ else _] => destruct b end; cbn [fst snd pending];
         repeat split; try exact H; try exact K; try discriminate.
   - destruct (N.eqb_spec tx0 tx) as [->|Hne].
     + rewrite H. cbn [fst snd]. repeat split; [exact H|discriminate].
@@ -280,33 +282,48 @@ Qed.
 Lemma aget_in_some {V} (l : list (N * V)) k : In k (map fst l) -> aget l k <> None.
 Proof. intros Hin E. exact (aget_none_notin l k E Hin). Qed.
 
-Lemma abort1_logs c tx : aget (pending c) tx <> None -> In (TComplete tx false) (snd (abort1 c tx)).
+(* [abortable c tx]: pending and not Committing *)
+Definition abortable (c : coord) (tx : N) : Prop :=
+  exists t, aget (pending c) tx = Some t /\ phase t <> COMMITTING.
+Lemma abort1_logs c tx : abortable c tx -> In (TComplete tx false) (snd (abort1 c tx)).
 Proof.
-  intros H. unfold abort1. destruct (aget (pending c) tx); [|contradiction].
+  intros (t & E & Hp). unfold abort1. rewrite E.
+  destruct (N.eqb_spec (phase t) COMMITTING); [contradiction|].
   cbn [snd]. right. left. reflexivity.
 Qed.
-Lemma abort1_removes c tx : aget (pending (fst (abort1 c tx))) tx = None.
+Lemma abort1_removes c tx : abortable c tx -> aget (pending (fst (abort1 c tx))) tx = None.
 Proof.
-  unfold abort1. destruct (aget (pending c) tx) eqn:E; cbn [fst pending]; [|exact E].
+  intros (t & E & Hp). unfold abort1. rewrite E.
+  destruct (N.eqb_spec (phase t) COMMITTING); [contradiction|]. cbn [fst pending].
   rewrite aget_adel, N.eqb_refl. reflexivity.
 Qed.
 Lemma abort1_other c t tx : t <> tx -> aget (pending (fst (abort1 c t))) tx = aget (pending c) tx.
 Proof.
-  intros Hne. unfold abort1. destruct (aget (pending c) t); cbn [fst pending]; [|reflexivity].
+  intros Hne. unfold abort1. destruct (aget (pending c) t) as [t0|]; cbn [fst pending]; [|reflexivity].
+  destruct (phase t0 =? COMMITTING); cbn [fst pending]; [reflexivity|].
   rewrite aget_adel. destruct (N.eqb_spec t tx); [contradiction|reflexivity].
 Qed.
-Lemma abort_all_logs order : forall c tx, In tx order -> aget (pending c) tx <> None ->
+Lemma abort_all_other order : forall c tx, ~ In tx order ->
+  aget (pending (fst (abort_all c order))) tx = aget (pending c) tx.
+Proof.
+  induction order as [|t r IH]; intros c tx Hn; cbn [abort_all]; [reflexivity|].
+  assert (Hne: t <> tx) by (intros ->; apply Hn; left; reflexivity).
+  pose proof (abort1_other c t tx Hne) as O1. destruct (abort1 c t) as [c1 w1]. cbn [fst] in O1.
+  assert (Hn': ~ In tx r) by (intros Hr; apply Hn; right; exact Hr).
+  pose proof (IH c1 tx Hn') as O2. destruct (abort_all c1 r) as [c2 w2]. cbn [fst] in *. congruence.
+Qed.
+Lemma abort_all_logs order : forall c tx, In tx order -> abortable c tx ->
   In (TComplete tx false) (snd (abort_all c order)) /\ aget (pending (fst (abort_all c order))) tx = None.
 Proof.
   induction order as [|t r IH]; intros c tx Hin Hp; [destruct Hin|]. cbn [abort_all].
   destruct (N.eq_dec t tx) as [->|Hne].
-  - pose proof (abort1_logs c tx Hp) as L1. pose proof (abort1_removes c tx) as R1.
+  - pose proof (abort1_logs c tx Hp) as L1. pose proof (abort1_removes c tx Hp) as R1.
     destruct (abort1 c tx) as [c1 w1]. cbn [fst snd] in *.
     pose proof (abort_all_absent r c1 tx R1) as R2. destruct (abort_all c1 r) as [c2 w2]. cbn [fst snd] in *.
     split; [apply in_or_app; left; exact L1|exact R2].
   - destruct Hin as [E|Hin]; [contradiction|].
     pose proof (abort1_other c t tx Hne) as O1. destruct (abort1 c t) as [c1 w1]. cbn [fst] in O1.
-    assert (Hp1: aget (pending c1) tx <> None) by (rewrite O1; exact Hp).
+    assert (Hp1: abortable c1 tx) by (unfold abortable; rewrite O1; exact Hp).
     destruct (IH c1 tx Hin Hp1) as [L2 R2]. destruct (abort_all c1 r) as [c2 w2]. cbn [fst snd] in *.
     split; [apply in_or_app; right; exact L2|exact R2].
 Qed.
@@ -314,7 +331,8 @@ Lemma abort_all_no_begin order : forall c e, In e (snd (abort_all c order)) -> f
 Proof.
   induction order as [|t r IH]; intros c e Hin tx; cbn [abort_all] in Hin; [destruct Hin|].
   assert (A1: forall e', In e' (snd (abort1 c t)) -> is_begin tx e' = false).
-  { unfold abort1. destruct (aget (pending c) t); cbn [snd]; intros e' He'; [|destruct He'].
+  { unfold abort1. destruct (aget (pending c) t) as [t0|]; cbn [snd]; intros e' He'; [|destruct He'].
+    destruct (phase t0 =? COMMITTING); cbn [snd] in He'; [destruct He'|].
     destruct He' as [<-|[<-|[]]]; reflexivity. }
   destruct (abort1 c t) as [c1 w1]. cbn [snd] in A1. specialize (IH c1).
   destruct (abort_all c1 r) as [c2 w2]. cbn [snd] in *.
@@ -323,28 +341,64 @@ Qed.
 
 (* every id the sweep reports has left the pending table and its abort is in the records the call
    wrote: phase change to Aborting, then TxComplete{Aborted} *)
-Theorem timed_out_is_logged now c t order c' w out tx :
+Lemma aget_of_in {V} (l : list (N * V)) k v : NoDupK l -> In (k, v) l -> aget l k = Some v.
+Proof.
+  unfold NoDupK. induction l as [|[k0 v0] l IH]; cbn; intros ND Hin; [destruct Hin|].
+  inversion ND as [|? ? Hn Hd]; subst. destruct Hin as [E|Hin].
+  - inversion E; subst. rewrite N.eqb_refl. reflexivity.
+  - destruct (N.eqb_spec k0 k) as [->|Hne]; [|apply IH; assumption].
+    exfalso. apply Hn. apply in_map_iff. exists (k, v). split; [reflexivity|exact Hin].
+Qed.
+Theorem timed_out_is_logged now c t order c' w out tx : NoDupK (pending c) ->
   step now c (Timeouts t order) = (c', w, out) -> In tx (tl out) ->
   In (TComplete tx false) w /\ aget (pending c') tx = None /\ (forall e, In e w -> forall x, is_begin x e = false).
 Proof.
-  cbn [step]. intros H Hin.
+  cbn [step]. intros ND H Hin.
   match type of H with context [if negb ?b then _ else _] => destruct b eqn:Ess end; cbn [negb] in H.
   2:{ inversion H; subst. destruct Hin. }
-  assert (Hord: In tx order /\ aget (pending c) tx <> None).
-  { assert (Ho: out = 3 :: sort_N (map fst (filter (fun p => timeout (snd p) <? now - started (snd p)) (pending c))))
+  assert (Hord: In tx order /\ abortable c tx).
+  { assert (Ho: out = 3 :: sort_N (map fst (filter (fun p => (timeout (snd p) <? now - started (snd p)) && negb (phase (snd p) =? COMMITTING)) (pending c))))
       by (destruct (abort_all c order); inversion H; reflexivity).
     rewrite Ho in Hin. cbn [tl] in Hin. apply in_sort_N in Hin.
     split.
     - unfold same_set in Ess. apply andb_true_iff in Ess as [Ess _]. apply andb_true_iff in Ess as [_ Ess].
       rewrite forallb_forall in Ess. specialize (Ess tx Hin). apply existsb_exists in Ess as (y & Hy & E).
       apply N.eqb_eq in E. subst y. exact Hy.
-    - apply aget_in_some. apply in_map_iff in Hin as ([k v] & Ek & Hf). cbn in Ek. subst k.
-      apply filter_In in Hf as [Hf _]. apply in_map_iff. exists (tx, v). split; [reflexivity|exact Hf]. }
+    - apply in_map_iff in Hin as ([k v] & Ek & Hf). cbn in Ek. subst k.
+      apply filter_In in Hf as [Hf Hc]. cbn [snd] in Hc. apply andb_true_iff in Hc as [_ Hc].
+      exists v. split; [apply (aget_of_in _ _ _ ND Hf)|].
+      intros Hph. rewrite Hph in Hc. discriminate. }
   destruct Hord as [Hio Hp].
   destruct (abort_all_logs order c tx Hio Hp) as [L R].
   pose proof (abort_all_no_begin order c) as NB.
   destruct (abort_all c order) as [c2 w2]. cbn [fst snd] in *. inversion H; subst.
   split; [exact L|]. split; [exact R|]. intros e He x. apply (NB e He x).
+Qed.
+
+(* a Committing transaction is left alone by abort() and by the timeout sweeper *)
+Theorem committing_is_never_aborted : forall now c tx t, NoDupK (pending c) ->
+  aget (pending c) tx = Some t -> phase t = COMMITTING ->
+  step now c (Abort tx) = (c, [], [1; 2]) /\
+  forall t' order c' w out, step now c (Timeouts t' order) = (c', w, out) -> out <> [9] ->
+    aget (pending c') tx = Some t /\ ~ In tx (tl out).
+Proof.
+  intros now c tx t ND E Hph. split.
+  - cbn [step]. rewrite E, Hph. reflexivity.
+  - intros t' order c' w out H Hout. cbn [step] in H.
+    match type of H with context [if negb ?b then _ else _] => destruct b eqn:Ess end; cbn [negb] in H.
+    2:{ inversion H; subst. contradiction. }
+    set (outl := filter (fun p => (timeout (snd p) <? now - started (snd p)) && negb (phase (snd p) =? COMMITTING)) (pending c)) in *.
+    assert (Hno: ~ In tx (map fst outl)).
+    { intros Hin. apply in_map_iff in Hin as ([k v] & Ek & Hf). cbn in Ek. subst k.
+      apply filter_In in Hf as [Hf Hc]. cbn [snd] in Hc. apply andb_true_iff in Hc as [_ Hc].
+      rewrite (aget_of_in _ _ _ ND Hf) in E. inversion E; subst v. rewrite Hph in Hc. discriminate. }
+    assert (Hord: ~ In tx order).
+    { intros Hin. apply Hno. unfold same_set in Ess. apply andb_true_iff in Ess as [Ess _].
+      apply andb_true_iff in Ess as [Ess _]. rewrite forallb_forall in Ess. specialize (Ess tx Hin).
+      apply existsb_exists in Ess as (y & Hy & Ey). apply N.eqb_eq in Ey. subst y. exact Hy. }
+    pose proof (abort_all_other order c tx Hord) as Ho.
+    destruct (abort_all c order) as [c2 w2]. cbn [fst] in Ho. inversion H; subst.
+    split; [rewrite Ho; exact E|]. cbn [tl]. intros Hin. apply in_sort_N in Hin. exact (Hno Hin).
 Qed.
 
 Lemma forallb_firstn {A} (f : A -> bool) (l : list A) m : forallb f l = true -> forallb f (firstn m l) = true.
@@ -423,7 +477,7 @@ Proof.
   induction es as [|e es IH]; intros [|j] [|j'] H; cbn [bytes_upto]; try lia.
   specialize (IH j j'). lia.
 Qed.
-Theorem timed_out_never_committed : forall now0 c t order c' w out tx,
+Theorem timed_out_never_committed : forall now0 c t order c' w out tx, NoDupK (pending c) ->
   step now0 c (Timeouts t order) = (c', w, out) -> In tx (tl out) ->
   forall now ES0 ES1 k,
   (bytes_upto ser crc true (ES0 ++ w ++ ES1) (length (ES0 ++ w)) <= k)%nat ->
@@ -434,8 +488,8 @@ Theorem timed_out_never_committed : forall now0 c t order c' w out tx,
       forall s out, In (s, out) (replies now (co d) ss) ->
         (targets tx s = true -> out = [1; 1]) /\ (forall t o, s = Timeouts t o -> ~ In tx (tl out)).
 Proof.
-  intros now0 c t order c' w out tx Hs Hin now ES0 ES1 k Hk Hnb.
-  destruct (timed_out_is_logged now0 c t order c' w out tx Hs Hin) as (L & _ & NB).
+  intros now0 c t order c' w out tx ND Hs Hin now ES0 ES1 k Hk Hnb.
+  destruct (timed_out_is_logged now0 c t order c' w out tx ND Hs Hin) as (L & _ & NB).
   apply In_nth_error in L as [j Hj].
   assert (Hjl: (j < length w)%nat) by (apply nth_error_Some; congruence).
   apply (outcome_never_reversed now (ES0 ++ w ++ ES1) k (length ES0 + j) tx false).
@@ -656,6 +710,7 @@ Proof.
   intros HL. pose proof HL as [ND HI]. unfold abort1.
   destruct (aget (pending c) tx) as [t|] eqn:Et; cbn [fst snd].
   2:{ rewrite app_nil_r. exact HL. }
+  destruct (phase t =? COMMITTING); cbn [fst snd]; [rewrite app_nil_r; exact HL|].
   apply (transfer c es _ _ tx HL); cbn [pending].
   + repeat constructor.
   + intros tx' Hne. apply aget_adel_other. exact Hne.
@@ -760,6 +815,7 @@ Proof.
   - (* Abort *)
     destruct (aget (pending c) tx) as [t|] eqn:Et;
       [|inversion H; subst; rewrite app_nil_r; split; [exact ND|exact HI]].
+    destruct (phase t =? COMMITTING); [inversion H; subst; rewrite app_nil_r; split; [exact ND|exact HI]|].
     inversion H; subst. apply (transfer c es _ _ tx HL); cbn [pending].
     + repeat constructor.
     + intros tx' Hne. apply aget_adel_other. exact Hne.
@@ -919,16 +975,45 @@ Qed.
 
 (* the pending table after a live recovery call over the log es *)
 Definition merge_recovered (fw : bool) (now : N) (es : list tentry) (c : coord) : coord :=
-  Co (fold_left (fun p x => aset p (fst x) (snd x)) (pending (fst (recover_entries true fw now es))) (pending c))
-     (release (locks c) (map snd (orphans (scanL es)))) (cfg_prepare_timeout c).
+  Co (fold_left (fun p x => aset p (fst x) (snd x)) (pending (fst (recover_entries true fw now es)))
+                (drop_done (scanL es) (pending c)))
+     (release_done (scanL es) (release (locks c) (map snd (orphans (scanL es))))) (cfg_prepare_timeout c).
 
 Lemma LInv_recover_live fw now c es : LInv c es -> LInv (merge_recovered fw now es c) es.
 Proof.
   intros [ND HI]. destruct (LInv_restart fw now es) as [NDr HIr].
+  assert (NDf: NoDupK (drop_done (scanL es) (pending c))) by (apply NoDupK_filter; exact ND).
   split; cbn [merge_recovered pending].
-  - apply NoDupK_fold_aset. exact ND.
+  - apply NoDupK_fold_aset. exact NDf.
   - intros tx t Ht. rewrite aget_fold_aset in Ht by exact NDr.
     destruct (aget (pending (fst (recover_entries true fw now es))) tx) as [t0|] eqn:E.
     + inversion Ht; subst t0. apply (HIr tx t E).
-    + apply (HI tx t Ht).
+    + apply (HI tx t). eapply aget_filter_some; [exact ND|exact Ht].
+Qed.
+
+(* recover_from_wal() on ANY coordinator state c (e.g. one loaded from an older snapshot): a
+   transaction whose completion the log holds (and that the log does not begin again) is not
+   pending afterwards and owns no lock *)
+Lemma aget_filter_key {V} (f : N -> bool) (l : list (N * V)) k : f k = false ->
+  aget (filter (fun x => f (fst x)) l) k = None.
+Proof.
+  intros Hf. induction l as [|[k0 v0] l IH]; cbn; [reflexivity|].
+  destruct (f k0) eqn:E0; cbn; [|exact IH].
+  destruct (N.eqb_spec k0 k) as [->|]; [congruence|exact IH].
+Qed.
+Theorem recovery_drops_completed fw now es c tx :
+  In tx (completed (scanL es)) -> aget (in_prog (scanL es)) tx = None ->
+  aget (pending (merge_recovered fw now es c)) tx = None /\
+  forall l, In l (locks (merge_recovered fw now es c)) -> snd l <> tx.
+Proof.
+  intros Hc Hip.
+  assert (Hd: is_done (scanL es) tx = true).
+  { unfold is_done. apply existsb_exists. exists tx. split; [exact Hc|apply N.eqb_refl]. }
+  split.
+  - cbn [merge_recovered pending]. destruct (LInv_restart fw now es) as [NDr _].
+    rewrite aget_fold_aset by exact NDr.
+    rewrite recover_pending. rewrite Hip.
+    unfold drop_done. apply (aget_filter_key (fun k => negb (is_done (scanL es) k))). rewrite Hd. reflexivity.
+  - cbn [merge_recovered locks]. intros l Hl. unfold release_done in Hl. apply filter_In in Hl as [_ Hl].
+    intros E. rewrite E, Hd in Hl. discriminate.
 Qed.
